@@ -136,7 +136,25 @@ def _ml_job(job):
     m = g.module()
     if k % 3 != 0:
         m = [('ns', r.choice(['outer', 'gtsam', 'n1']), m)]       # everything namespaced
+    forced = None
+    if k % 4 == 2:
+        # a class that merely shares its NAME with an enum nested in an unrelated sibling class: removing or ignoring that
+        # sibling must not change how the name is understood elsewhere
+        nm = r.choice(['Kind', 'Mode', 'Color'])
+        kt = ('ty', ('tn', ['sib'], nm, []), True, '&', False)
+        kv = ('ty', ('tn', ['sib'], nm, []), False, '', False)
+        void = ('ty', ('tn', [], 'void', []), False, '', True)
+        sib = ('ns', 'sib', [
+            ('class', None, False, 'ShapeX', None, [('ctor', None, 'ShapeX', ()), ('enum', 'enum', nm, ['A', 'B'])]),
+            ('class', None, False, nm, None, [('ctor', None, nm, ())]),
+            ('class', None, False, 'BoxX', None, [('ctor', None, 'BoxX', (('arg', kt, 'k', None), )),
+                                                 ('method', None, 'kind', ('r1', kv), (), True),
+                                                 ('method', None, 'setKind', ('r1', void), (('arg', kt, 'k', None), ), False)])])
+        m = list(m) + [sib]
+        forced = 'ShapeX'
     sites = [(p, d) for p, d in class_sites(m) if not referenced(m, d[3]) and len(p) > 1]     # namespaced classes
+    if forced:
+        sites = [(p, d) for p, d in sites if d[3] == forced] or sites
     if not sites:
         return None
     path, cls = r.choice(sites)
